@@ -2,6 +2,8 @@
 # runs the quick (default) or thorough command of every claimed check, one after the other; summary at the end
 TIER=${1:-quick}
 cd /verif
+# the committed evidence is that of the quick tier (what the registered quick commands rewrite); a thorough sweep writes elsewhere
+if [ "$TIER" = "thorough" ]; then export VERIF_EVIDENCE_DIR=${VERIF_EVIDENCE_DIR:-/var/tmp/thorough_evidence}; fi
 for id in $(python3 -c "import json;print(' '.join(c['property_id'] for c in json.load(open('MANIFEST.json'))['checks']))"); do
   t0=$(date +%s)
   python3 run.py $id --tier $TIER > /var/tmp/run_all_${TIER}_$id.log 2>&1
